@@ -579,12 +579,19 @@ def run(tier):
                       "floating targets: neighbour rule and finite-stays-finite only; rounding direction is not decided",
                       "exhaustive at scaled widths and for 8/16-bit sources; otherwise boundary enumeration and seeded sampling",
                       "absence of faults is observed per executed call (forked child, ASan), not proved"]
+    # extension X07: scalar TO text, formats / destinations parsed from text, ranges, vectors (checks/x07_print.py, docs/X07_print.md)
+    import x07_print
+    if x07_print.enabled():
+        x07_print.run_part(ck, tier)
     return ck.finish()
 
 
 def replay(path):
     d = json.load(open(path))
     det = d["detail"]
+    if det.get("part") == "x07_print":
+        import x07_print
+        return x07_print.replay(det, path)
     beh = det.get("behaviour")
     if not beh:
         print(json.dumps(det, indent=1)[:4000])
